@@ -1291,11 +1291,49 @@ def _out8_pass(u, fam, famnames, leaves_dirty, R):
                 elif ev.kind == 'incdec' and through_grant(ev.lhs):
                     dirty = dirty or True
             return dirty
-        states = solve(cfg, False, lambda nd, st: transfer(nd, st), lambda nd, l, st: st,
-                       lambda a, b: 'callee' if 'callee' in (a, b) else (a or b))
+        # `printed = print_x(..); ... if (printed) { update_offset(p); } return printed;`: the edge on which the flag that is going
+        # to be returned is zero belongs to the failing outcome, whose buffer nobody reads
+        flagvars = set()
+        for r_ in cfg.returns():
+            e_ = strip_casts(r_.expr) if r_.expr is not None else {}
+            if e_.get('k') == 'ref' and e_.get('dk') == 'local' and u.ty(e_.get('ty0', e_['ty']))['c'] in ('int', 'bool'):
+                flagvars.add(e_['d'])
+
+        def refine_flag(nd, l, st):
+            if nd.kind != 'branch' or l is None or l[0] not in ('T', 'F') or nd.expr is None or not flagvars:
+                return st
+            e_ = strip_casts(nd.expr)
+            zero_on = 'F'
+            while e_.get('k') == 'un' and e_['op'] == '!':
+                zero_on = 'T' if zero_on == 'F' else 'F'
+                e_ = strip_casts(e_['e'])
+            pc_ = cmp_parts(e_)
+            if pc_ is not None and pc_[2] == 0 and pc_[1] in ('==', '!='):
+                if pc_[1] == '==':
+                    zero_on = 'T' if zero_on == 'F' else 'F'
+                e_ = strip_casts(pc_[0])
+            if e_.get('k') == 'ref' and e_.get('d') in flagvars and l[0] == zero_on:
+                # only when the flag is not assigned again before it is returned
+                tgt = [y for (y, l2) in cfg.succ[nd.id] if l2 is l or l2 == l]
+                reach_ = set()
+                for y in tgt:
+                    reach_ |= cfg.reachable(y) | {y}
+                reassigned = any(ev.kind in ('store', 'incdec') and is_ref(ev.lhs) and strip_casts(ev.lhs)['d'] == e_['d']
+                                 for m_ in reach_ for ev in node_effects(cfg.nodes[m_]))
+                if not reassigned:
+                    return 'failed'
+            return st
+
+        def join_(a, b):
+            if a == 'failed':
+                return b
+            if b == 'failed':
+                return a
+            return 'callee' if 'callee' in (a, b) else (a or b)
+        states = solve(cfg, False, lambda nd, st: (st if st == 'failed' else transfer(nd, st)), refine_flag, join_)
         sites = []
         for nd in cfg.nodes:
-            if nd.id in states:
+            if nd.id in states and states[nd.id] != 'failed':
                 transfer(nd, states[nd.id], record=sites)
         # what matters is the state a *successful* call leaves: a failed printer makes its callers give up (TAB17), and
         # the buffer with it
@@ -1303,7 +1341,7 @@ def _out8_pass(u, fam, famnames, leaves_dirty, R):
         for r in cfg.returns():
             if r.expr is not None and (const_val(r.expr) == 0 or is_null_const(r.expr)):
                 continue
-            if r.id in states:
+            if r.id in states and states[r.id] != 'failed':
                 succ_dirty = succ_dirty or bool(transfer(r, states[r.id]))
         leaves_dirty[fn.name] = succ_dirty
         leaves_dirty['requests:' + fn.name] = any(
